@@ -62,6 +62,7 @@ type Defmacro struct {
 
 // Call the function with the arguments provided.
 func (f *Defmacro) Call(s *slip.Scope, args slip.List, depth int) (result slip.Object) {
+	slip.CheckArgCount(s, depth, f, args, 2, -1)
 	name, ok := args[0].(slip.Symbol)
 	if !ok {
 		slip.TypePanic(s, depth, "name argument to defmacro", args[0], "symbol")
